@@ -239,6 +239,7 @@ func (m *CPU) flush(pc int32) {
 	m.controlBus.Clean()
 	m.executeBus.Clean()
 	m.writeBus.Clean()
+	m.memoryManagementUnit.pendings = nil
 	m.ctx.Flush()
 }
 
